@@ -40,6 +40,13 @@ EventRootTolUnits == 100
 DenseRichTolUnits == 100
 DenseMidQuotient == 8
 
+(* C01: an order condition is "satisfied" when the component of one real step on the tree system differs   *)
+(* from h^|tau|/gamma(tau) by at most OrderUnits units of eps(float64) * |h|^|tau| (plus the Newton        *)
+(* tolerance for implicit methods).  The shipped tables are double precision literals with up to 35        *)
+(* stages; the worst value observed on a correct table is ~130 units, a coefficient wrong in the 8th      *)
+(* digit gives > 10^7 units.                                                                              *)
+OrderUnits == 4096
+
 (* "modest multiple" of a tolerance (C15) and "modest constant" (C05)         *)
 ModestK == 10
 =============================================================================
